@@ -16,6 +16,9 @@ ASSUMPTIONS = ["Util::generateUuid returns distinct values"]
 
 
 def run(ctx):
+    pg_scan_sampling_tick(ctx, "C06")
+    from .C02 import engine_evaluation_order
+    engine_evaluation_order(ctx)
     resume_follows_clear(ctx, "C06")
     saved_context_is_a_copy(ctx, "C06")
     detector_walk_every_tick(ctx, "C06")
